@@ -386,8 +386,12 @@ def _random_node(seed):
         main = accs.get('value', {}).get('unit', '')
         expect[m]['units'] = {w: '' for w in expect[m]['wires']}
         for a in accs.values():
-            if a['wire'] and a.get('unit'):
-                expect[m]['units'][a['wire']] = a['unit'].replace('$', main) if main else a['unit']
+            if a.get('unit'):
+                u = a['unit'].replace('$', main) if main else a['unit']
+                lims = [a['lim'].get('lo'), a['lim'].get('hi')]       # <p>_min / <p>_max share the datatype
+                for b in [a] + [accs[x] for x in lims if x]:
+                    if b['wire']:
+                        expect[m]['units'][b['wire']] = u
     return {'trace': p.trace(expect), 'hidden': [list(h) for h in hidden]}
 
 
